@@ -150,7 +150,8 @@ def jobs(tier):
 # fields after a first masked rendering
 INDIRECT = ["virtual-raises-in-sub", "dict-of-list-of-configs", "list-of-list-of-configs", "dict-of-dict-of-list-of-configs", "sub:dict-of-list-of-configs", "sub:list-of-list-of-configs",
             "untyped-list-holds-configs", "any-holds-config-list", "dynamic-holds-config-list", "sub:untyped-list-holds-configs", "virtual-returns-item", "virtual-returns-sub", "dynamic-holds-config", "late-attr", "late-item", "late-dotted-item", "late-auto-sub",
-            "late-in-item-schema"]
+            "late-in-item-schema", "flag-off-sub", "flag-off-root", "flag-off-item",
+            "dynamic-then-declared", "dynamic-then-declared-reassigned", "dynamic-then-declared-secure"]
 
 
 def _indirect_world(variant, keypath, prior_render):
@@ -160,7 +161,7 @@ def _indirect_world(variant, keypath, prior_render):
         sch.sec_s = cc.StringField(sensitive=True)
         sch.sec_x = cc.SecureField(method="xor")
         sch.pub_s = cc.StringField()
-    s = cc.Schema(dynamic=variant.startswith("dynamic-holds-config"))
+    s = cc.Schema(dynamic=variant.startswith("dynamic-holds-config") or variant.startswith("dynamic-then-declared"))
     node(s)
     node(s.sub)
     item = cc.Schema()
@@ -197,6 +198,13 @@ def _indirect_world(variant, keypath, prior_render):
         s.alias = cc.VirtualField(lambda cfg: cfg.sub)
     vals = {"sec_s": "TOPSECRET-xyz", "sec_x": "XSECRET-q9", "pub_s": "PUBLIC-abc"}
     tree = dict(vals, sub=dict(vals), items=[dict(vals)])
+    if variant.startswith("flag-off"):
+        # a section whose feature flag is off is still rendered: its sensitive values, the ones of the sections below it
+        # and of its list items are masked like everywhere else
+        node(s.sub.below)
+        s.sub.subitems = cc.ListField(item)
+        tree["sub"].update(below=dict(vals), subitems=[dict(vals), dict(vals)])
+        {"flag-off-sub": s.sub, "flag-off-root": s, "flag-off-item": item}[variant].enabled = cc.FeatureFlagField(default=False)
     cfg = cc.Config(s, key_filename=keypath)
     cfg.load_tree(tree)
     if nested_val is not None:
@@ -223,6 +231,13 @@ def _indirect_world(variant, keypath, prior_render):
     if late:
         cfg = cc.Config(s, key_filename=keypath)       # a configuration built after the schema grew
         cfg.load_tree(dict(tree, **late))
+    if variant.startswith("dynamic-then-declared"):
+        # a dynamic configuration holds an ad-hoc value; the schema then declares that key as a sensitive field: from
+        # then on the declared field governs the key (it validates every write), also when the old object is rendered
+        cfg.late = "LATESECRET-1"
+        s.late = cc.SecureField(method="xor") if variant.endswith("secure") else cc.StringField(sensitive=True)
+        if not variant.endswith("declared"):
+            cfg.late = "LATESECRET-1"
     if variant == "dynamic-holds-config":
         held = cc.Config(item, key_filename=keypath)
         held.load_tree(dict(vals))
